@@ -4,7 +4,11 @@
 (* (TransmissionModel.build(), attributes and generate_profiles()):        *)
 (*                                                                         *)
 (*  ev = "levels"   n, kind ("simple" | "array"), lev[1..n+1], lay[1..n],  *)
-(*                  pmax, pmin (simple only)                               *)
+(*                  pmax, pmin (simple only: the CURRENTLY declared bounds; *)
+(*                  the model may be long-lived and have had its planet /  *)
+(*                  pressure settings changed before this observation),    *)
+(*                  input, reverse (array / file profiles: the pressures   *)
+(*                  handed to the constructor in Pa, and the flag)         *)
 (*  ev = "step"     one per layer: i (0-based), n, z0, z1, dz, H, g, T,    *)
 (*                  mu, Lr, rho, P, rad, gm, kB  -- taken from the exposed *)
 (*                  per-layer profiles at index i (alignment)              *)
@@ -38,6 +42,11 @@ LevelsFails(e) ==
                                  /\ Same(lev[1], DOf(e.pmax))
                                  /\ Same(lev[e.n + 1], DOf(e.pmin))
                               THEN {} ELSE {"levels_log_spaced"})
+                   ELSE {})
+             \cup (IF BracketRel(DLt, lev, lay) THEN {} ELSE {"levels_bracket_layers"})
+             \cup (IF e.kind = "array"
+                   THEN (IF AllPos(e.input) /\ OrientedInputRel(Same, lay, DSeq(e.input), e.reverse)
+                         THEN {} ELSE {"layers_are_oriented_input"})
                    ELSE {})
 
 StepFails(e) ==
